@@ -35,22 +35,28 @@ def gen_schema(rng, depth, top=True):
     return {k: gen_schema(rng, depth - 1, False) for k in keys}
 
 
-def gen_stage(rng, schema, stage, mk, p_keep):
+def gen_stage(rng, schema, stage, mk, p_keep, seen=None, path=()):
+    seen = {} if seen is None else seen
     items = []
     for k, sub in schema.items():
         if rng.random() > p_keep:
             continue
         if sub is None:
             r = rng.random()
-            if r < 0.65:
+            prev = seen.get(path + (k,))
+            if prev is not None and rng.random() < 0.25:
+                leaf = S(prev, style='dq') if isinstance(prev, str) else S(prev)        # a writer restating a value written before (with its own priority)
+            elif r < 0.65:
                 leaf = gen.scalar_node(rng, mk.next(rng))
             elif r < 0.72:
                 leaf = gen.scalar_node(rng, rng.choice([0, '', False, None, 0.0]))   # falsy winners must survive too
             else:
                 leaf = L([gen.scalar_node(rng, mk.next(rng)) for _ in range(rng.randrange(0, 4))])
+            if leaf['t'] == 'sc':
+                seen[path + (k,)] = leaf['v']
             items.append([k, leaf])
         else:
-            items.append([k, gen_stage(rng, sub, stage, mk, p_keep)])
+            items.append([k, gen_stage(rng, sub, stage, mk, p_keep, seen, path + (k,))])
     rng.shuffle(items)
     return M(items)
 
@@ -85,8 +91,9 @@ def gen_case(rng, tier):
     nst = rng.choice([2, 2, 3, 3, 4, 5, 6])
     mk = gen.Marker()
     docs = []
+    seen = {}
     for i in range(nst):
-        d = gen_stage(rng, schema, i, mk, rng.choice([0.5, 0.7, 0.9]))
+        d = gen_stage(rng, schema, i, mk, rng.choice([0.5, 0.7, 0.9]), seen)
         place_prio(rng, d, rng.choice([0.15, 0.3, 0.5]), i)
         docs.append(d)
     style = rng.choice(['flow', 'block'])
